@@ -151,7 +151,9 @@ class CollapseStream {
       if (current_.Base() == block_base + block_->ValidSize()) {
         block_->SetValidSize(copy_from_ + current_.TotalSize() - block_base);
         ++block_;
+        // StartBlock marks the first n-gram of the next block, if there is one.
         StartBlock();
+        return *this;
       }
 
       // Mark highest order n-grams for later pruning
